@@ -162,13 +162,13 @@ def snap(tier="quick"):
             rep = replay_snap(av, tp)
             if rep:
                 return res.out("violated", rep, _viol(rep, av, tp))
-    for tp in ([10, 100, 1000, 3, 7, 100000] if tier == "thorough" else [100, 10]):
-        dom = A.FPX()
+    for tp in ([10, 100, 1000, 3, 7, 100000] if tier == "thorough" else [100, 10, 1000]):
+        dom = A.FPX(bw=32)
         jv = dom.int_var("j")
         a = dom.arith("/", jv, tp)
         s1 = snap_eval(dom, a, tp)
-        cons = [jv.t >= 0, jv.t <= 2_000_000, z3.Not(z3.fpEQ(s1.t, a.t))]
-        r, m = solve(res, cons, 120000 if tier == "thorough" else 60000)
+        cons = [jv.t >= 0, jv.t <= 1_000_000, z3.Not(z3.fpEQ(s1.t, a.t))]
+        r, m = solve(res, cons, 240000 if tier == "thorough" else 100000)
         if r == "sat":
             jj = A.bv_to_py(m, jv.t)
             av = jj / tp
